@@ -4,7 +4,7 @@ CONSTANTS
   Impl <- NoDevs
   Depth = 5
   GenModes <- QuickModes
-  GenBy = TRUE
+  GenBy = FALSE
 CONSTRAINT Bound
 ACTION_CONSTRAINT EmitStep
 VIEW AbstractView
